@@ -294,7 +294,7 @@ theorem c19_failed_growth_leaves_empty_storage {c : Cfg} (hc : CfgOK c) (hp : c.
     (step s (Op.allocFail k sz)).1.busy = false ∧ (step s (Op.allocFail k sz)).1.frames = s.frames ∧
     (step s (Op.allocFail k sz)).1.heap = s.heap.delOpt s.ptr ∧
     Inv (step s (Op.allocFail k sz)).1 ∧
-    ∀ k' m, (step (step s (Op.allocFail k sz)).1 (Op.alloc k' m)).2
+    ∀ k' m, 0 < need c m → (step (step s (Op.allocFail k sz)).1 (Op.alloc k' m)).2
         = Res.alloc s.nextFrame (Blk.heap (step s (Op.allocFail k sz)).1.heap.next) := by
   have hcfg : s.cfg = c := reachable_cfg h
   have hr : Reachable c (step s (Op.allocFail k sz)).1 := by
@@ -309,26 +309,39 @@ theorem c19_failed_growth_leaves_empty_storage {c : Cfg} (hc : CfgOK c) (hp : c.
       simp only [step, stepAllocFail, hpol, hg', if_true]
     rw [e] at hi ⊢
     refine ⟨rfl, rfl, rfl, hfree, rfl, rfl, hi, ?_⟩
-    intro k' m
-    simp only [step, stepAlloc, hpol, rsAlloc, State.ptrBlk]
-    have : need s.cfg m > 0 ∨ need s.cfg m = 0 := by omega
-    rcases this with h0 | h0
-    · simp [h0, Heap.delOpt]
-      cases s.ptr <;> simp [Heap.delOpt]
-    · exfalso
-      -- a request of 0 bytes on an empty reusable_storage returns nullptr, not a block
-      exact absurd h0 (by
-        have := hg'; omega)
+    intro k' m h0
+    rw [← hcfg] at h0
+    simp only [step, stepAlloc, hpol, rsAlloc, State.ptrBlk, h0, if_true]
   · have hpol : s.cfg.pol = Policy.mtsafe := by rw [hcfg]; exact hp
     have e : step s (Op.allocFail k sz) =
         ({ s with heap := s.heap.delOpt s.ptr, ptr := none, cap := 0, vsize := 0, busy := false }, Res.failed) := by
       simp only [step, stepAllocFail, hpol, hfree, hg', if_true, Bool.false_eq_true, if_false]
     rw [e] at hi ⊢
     refine ⟨rfl, rfl, rfl, rfl, rfl, rfl, hi, ?_⟩
-    intro k' m
-    have hm : need s.cfg m > 0 := by simp only [need, hpol, trailer]; omega
-    simp only [step, stepAlloc, hpol, Bool.false_eq_true, if_false, rsAlloc, State.ptrBlk, hm, if_true]
-    cases s.ptr <;> simp [Heap.delOpt]
+    intro k' m h0
+    rw [← hcfg] at h0
+    simp only [step, stepAlloc, hpol, Bool.false_eq_true, if_false, rsAlloc, State.ptrBlk, h0, if_true]
+
+/-- The pinned code violated the property here: `delete _ptr; _ptr = new(sz)` — when `new` throws, `_ptr` keeps the
+address of the deleted block and `_capacity` its size.  The next, smaller frame is placed in memory that is not live
+(block 0 was deleted), and the destructor deletes block 0 a second time; a `reusable_storage_mtsafe` additionally keeps
+`_busy` set although no frame exists.  Replayed on the headers by corpus/c19_seq_failed_growth.txt (ASan: attempting
+double-free / heap-use-after-free); repaired by the third `fix:` commit. -/
+theorem c19_failed_growth_asis_violation :
+    ((step (stepAllocFailAsIs (run (init { pol := Policy.reusable }) [Op.alloc 0 40, Op.free 0]) 0 100).1 (Op.alloc 0 8)).1.frames.map (·.blk)
+        = [Blk.heap 0]
+      ∧ (step (stepAllocFailAsIs (run (init { pol := Policy.reusable }) [Op.alloc 0 40, Op.free 0]) 0 100).1 (Op.alloc 0 8)).1.heap.live = []
+      ∧ (run (stepAllocFailAsIs (run (init { pol := Policy.reusable }) [Op.alloc 0 40, Op.free 0]) 0 100).1
+            [Op.alloc 0 8, Op.free 1, Op.destroy]).heap.dels = [0, 0])
+    ∧ ((stepAllocFailAsIs (run (init { pol := Policy.mtsafe }) [Op.alloc 0 40, Op.free 0]) 0 100).1.busy = true
+      ∧ (stepAllocFailAsIs (run (init { pol := Policy.mtsafe }) [Op.alloc 0 40, Op.free 0]) 0 100).1.frames = []) := by decide
+
+/-- the same history on the repaired step: the storage is empty, the next frame gets a fresh block, one delete per block -/
+example : (run (init { pol := Policy.reusable }) [Op.alloc 0 40, Op.free 0, Op.allocFail 0 100, Op.alloc 0 8]).heap.live = [(1, 8)]
+    ∧ (run (init { pol := Policy.reusable }) [Op.alloc 0 40, Op.free 0, Op.allocFail 0 100, Op.alloc 0 8, Op.free 1, Op.destroy]).heap.dels
+        = [0, 1]
+    ∧ (run (init { pol := Policy.mtsafe }) [Op.alloc 0 40, Op.free 0, Op.allocFail 0 100]).busy = false
+    ∧ (run (init { pol := Policy.mtsafe }) [Op.alloc 0 40, Op.free 0, Op.allocFail 0 100]).ok = true := by decide
 
 /-- **`static_storage<space>`**: a frame is placed in the object's own buffer exactly when frame + trailer fit
 (`need ≤ space`, the library's `assert`); with the `assert` compiled in a larger request is rejected and nothing
@@ -482,6 +495,19 @@ theorem c19_mtsafe_quiescent {s : State} (h : Reachable s) (hidle : ∀ t, s.pc 
     rcases hi.busy_iff.mp hb with ⟨t, ht⟩ | ⟨f, hf, _⟩
     · rw [hidle t] at ht; cases ht
     · rw [hq] at hf; cases hf
+
+/-- **A failed growth under interleaving** (repaired `reusable_storage_mtsafe::alloc`): the thread that holds the block and
+whose `operator new` throws leaves an empty storage with `_busy` clear; heap and live frames (all of them in private
+blocks at that moment) are untouched, and the resulting state is reachable, so all interleaving theorems go on to hold —
+other threads may have allocated private blocks meanwhile and may take the (empty) shared storage afterwards. -/
+theorem c19_mtsafe_failed_growth {s : State} (h : Reachable s) (t fid sz : Nat) (ht : s.pc t = Pc.needNew fid sz) :
+    (step s t Act.fail).2 = Res.failed fid ∧ (step s t Act.fail).1.busy = false ∧ (step s t Act.fail).1.ptr = none ∧
+    (step s t Act.fail).1.cap = 0 ∧ (step s t Act.fail).1.frames = s.frames ∧ (step s t Act.fail).1.heap = s.heap ∧
+    (step s t Act.fail).1.pc t = Pc.idle ∧ Reachable (step s t Act.fail).1 := by
+  have hr : Reachable (step s t Act.fail).1 := by
+    obtain ⟨sched, rfl⟩ := h
+    exact ⟨sched ++ [(t, Act.fail)], by simp [run, List.foldl_append]⟩
+  refine ⟨?_, ?_, ?_, ?_, ?_, ?_, ?_, hr⟩ <;> simp [step, ht, stepGoFail, setPc]
 
 /-- The pinned code violated the property: `dealloc` compared the frame's address with `me->_ptr`.  Thread 0 grows the
 block (`delete` … `new`); in between thread 1 obtains a private block at the just-freed address and releases it: it is
